@@ -295,13 +295,13 @@ impl BigNumber {
     }
 
     pub fn increment(&self) -> ClResult<BigNumber> {
-        let mut bn = BigNum::from_slice(&self.openssl_bn.to_vec())?;
+        let mut bn = self.openssl_bn.to_owned()?;
         bn.add_word(1)?;
         Ok(BigNumber { openssl_bn: bn })
     }
 
     pub fn decrement(&self) -> ClResult<BigNumber> {
-        let mut bn = BigNum::from_slice(&self.openssl_bn.to_vec())?;
+        let mut bn = self.openssl_bn.to_owned()?;
         bn.sub_word(1)?;
         Ok(BigNumber { openssl_bn: bn })
     }
